@@ -57,7 +57,7 @@ def deferred_roots(prog):
                 cc = closure_of(prog, body, t["args"][1])
                 if cc is not None:
                     add(cc, "closure given to Commands::queue")
-            if n2 in ("SystemCommandSetup::new", "SystemCommandCleanup::new"):
+            if n2 in ("SystemCommandSetup::new", "SystemCommandCleanup::new", A.names(prog)["setup_new"], A.names(prog)["cleanup_new"]):
                 for a in t["args"]:
                     for o in origins(body, a):
                         if o[0] == "fnitem":
@@ -257,7 +257,7 @@ def check(ctx):
     # the abort helper runs nothing
     try:
         H = A.abort_helper(prog)
-        runs = [b for f in prog.reachable_bodies([H], depth=2) for b, t, fr in f.iter_calls() if fr and lib.tail(mir.fn_name(fr), 2) == A.TABLE["callback_run"]]
+        runs = [b for f in prog.reachable_bodies([H], depth=2) for b, t, fr in f.iter_calls() if fr and lib.tail(mir.fn_name(fr), 2) == A.names(prog)["callback_run"]]
         ctx.check(not runs, "C18.c", "abort-helper:runs-no-system", "%s:%d" % (H.file, H.line), "", "the abort path runs a stored callback")
     except mir.AnchorLost as e:
         ctx.fail("C18.c", "anchor-lost:abort helper", "", str(e))
